@@ -108,7 +108,7 @@ func plan(tier string, seed int64) []driver.Case {
 			P: map[string]string{"kind": "chain", "chain": strings.Join(names, ">"), "script": sc.String(), "mode": []string{"unsafe", "safe"}[rng.Intn(2)]}})
 	}
 	// concurrent producers
-	targets := []string{"bare-safe", "bare-eventually", "serialize", "publish", "behavior", "replay", "async", "unicast", "chain", "ctxcancel"}
+	targets := []string{"bare-safe", "bare-eventually", "serialize", "publish", "behavior", "replay", "async", "unicast", "chain", "ctxcancel", "takeuntil"}
 	for i := 0; i < nConc; i++ {
 		g := []int{2, 4, 8}[rng.Intn(3)]
 		var scs []string
@@ -392,7 +392,7 @@ func runConc(c driver.Case) driver.Result {
 	recs = append(recs, r)
 	var emissions []src.Emission
 	switch target {
-	case "bare-safe", "bare-eventually", "serialize", "chain", "ctxcancel":
+	case "bare-safe", "bare-eventually", "serialize", "chain", "ctxcancel", "takeuntil":
 		m := &src.Multi{Name: "m", Scripts: scripts, Yield: c.Int("yield") > 0}
 		m.Mode = "safe"
 		if target == "bare-eventually" {
@@ -422,6 +422,17 @@ func runConc(c driver.Case) driver.Result {
 				cancel()
 			}()
 			defer cancel()
+		} else if target == "takeuntil" {
+			// the completion TakeUntil makes when its signal fires comes from one more goroutine: fired while
+			// the producers are delivering, it must still be the last thing the observer gets
+			signal := ro.NewPublishSubject[int]()
+			sub = ro.TakeUntil[int](signal)(obs).Subscribe(rec.Raw[int](r))
+			go func() {
+				for i := 0; i < 1+len(scripts); i++ {
+					runtime.Gosched()
+				}
+				signal.Next(1)
+			}()
 		} else {
 			sub = obs.Subscribe(rec.Raw[int](r))
 		}
@@ -509,7 +520,7 @@ func main() {
 	driver.Main(driver.Property{
 		ID:        "C01",
 		Level:     "exploration",
-		Rule:      "every catalogue entry × each input in turn fed by a hostile source playing every script over {1,2,Error,Complete} up to the bound (illegal suffixes after a terminal included) × source modes; five subject kinds fed the same scripts with an early and a late subscriber; random chains; 2-8 goroutines playing random hostile scripts concurrently into safe/eventually-safe observables, Serialize, subjects and chains. Oracle: grammar automaton in a hand-written recording observer (any callback after a terminal), conservation issued = delivered + dropped on bare observables, late notifications of subjects reported exactly once. Non-trivial: at least one callback observed (concurrent cases: additionally ≥2 producers inside subscriber.Next at once).",
+		Rule:      "every catalogue entry × each input in turn fed by a hostile source playing every script over {1,2,Error,Complete} up to the bound (illegal suffixes after a terminal included) × source modes; five subject kinds fed the same scripts with an early and a late subscriber; random chains; 2-8 goroutines playing random hostile scripts concurrently into safe/eventually-safe observables, Serialize, subjects and chains, also below ThrowOnContextCancel (context cancelled meanwhile) and TakeUntil (signal fired meanwhile from one more goroutine): the operator-made terminal is the last thing delivered. Oracle: grammar automaton in a hand-written recording observer (any callback after a terminal), conservation issued = delivered + dropped on bare observables, late notifications of subjects reported exactly once. Non-trivial: at least one callback observed (concurrent cases: additionally ≥2 producers inside subscriber.Next at once).",
 		Assume:    []string{"unsafe observables are never driven from several goroutines", "observer panics are C07's subject"},
 		Plan:      plan,
 		Run:       runCase,
